@@ -3,7 +3,9 @@ package c01
 import (
 	"context"
 	"fmt"
+	"net/http"
 	"testing"
+	"testing/synctest"
 
 	"github.com/bufbuild/connect-go/verif/memnet"
 	"github.com/bufbuild/connect-go/verif/pbt"
@@ -256,36 +258,92 @@ func checkMem(tt *testing.T, c Case) (pbt.Info, error) {
 	}
 	<-ex.HandlerDone()
 	classify(c, &info, ex.ReqBody(), ex.RespBody())
+	return info, verdict(c, log, res)
+}
+
+// checkNet runs the same case over the real net/http stack (HTTP/1.1 or h2c)
+// on in-memory connections inside a synctest bubble.
+func checkNet(tt *testing.T, c Case) (pbt.Info, error) {
+	var info pbt.Info
+	hp, cp := programs(c)
+	log := &prog.HLog{}
+	h := prog.NewHandler(c.Cfg.Kind, hp, log, c.Cfg.HandlerOptions()...)
+	var verr error
+	berr := pbt.Bubble(tt, func() error {
+		mux := http.NewServeMux()
+		mux.Handle(prog.Procedure(c.Cfg.Kind), h)
+		pn := memnet.NewPipeNet(mux, c.Transport == "h2c")
+		ctx, cancel := context.WithCancel(context.Background())
+		res := prog.RunClient(ctx, pn.Client, c.Cfg, cp, cancel)
+		cancel()
+		pn.Close()
+		synctest.Wait()
+		verr = verdict(c, log, res)
+		return nil
+	})
+	classify(c, &info, nil, nil)
+	info.Label("transport:" + c.Transport)
+	if berr != nil {
+		return info, berr
+	}
+	return info, verr
+}
+
+func verdict(c Case, log *prog.HLog, res *prog.CResult) error {
 	calls := log.Snapshot()
 	if len(calls) != 1 {
-		return info, fmt.Errorf("handler invoked %d times (client error: %v)", len(calls), res.Err)
+		return fmt.Errorf("handler invoked %d times (client error: %v)", len(calls), res.Err)
 	}
 	hc := calls[0]
 	if err := compare("client→handler", c.Req, hc.Received); err != nil {
-		return info, err
+		return err
 	}
 	if c.Cfg.Kind == prog.Client || c.Cfg.Kind == prog.Bidi {
 		if hc.RecvEnd != "eof" {
-			return info, fmt.Errorf("handler did not see a clean end of the request stream: end=%q err=%v", hc.RecvEnd, hc.RecvErr)
+			return fmt.Errorf("handler did not see a clean end of the request stream: end=%q err=%v", hc.RecvEnd, hc.RecvErr)
 		}
 	}
 	if len(hc.SendErrs) > 0 {
-		return info, fmt.Errorf("handler Send failed: %v", hc.SendErrs[0])
+		return fmt.Errorf("handler Send failed: %v", hc.SendErrs[0])
 	}
 	if res.Err != nil {
-		return info, fmt.Errorf("client call failed: %v", res.Err)
+		return fmt.Errorf("client call failed: %v", res.Err)
 	}
 	if err := compare("handler→client", c.Res, res.Received); err != nil {
-		return info, err
+		return err
 	}
 	if !res.CleanEnd {
-		return info, fmt.Errorf("client did not observe a clean end of stream")
+		return fmt.Errorf("client did not observe a clean end of stream")
 	}
 	if len(res.SendErrs) > 0 {
-		return info, fmt.Errorf("client Send failed: %v", res.SendErrs[0])
+		return fmt.Errorf("client Send failed: %v", res.SendErrs[0])
 	}
-	return info, nil
+	return nil
 }
+
+func netGen(t *rapid.T) Case {
+	tr := rapid.SampledFrom([]string{"h1", "h2c"}).Draw(t, "transport")
+	c := gen(tr, 6, false)(t)
+	if tr == "h1" && c.Cfg.Kind == prog.Bidi {
+		// bidi needs HTTP/2: use a half-duplex kind instead
+		c.Cfg.Kind = prog.Client
+		c.Pattern = ""
+		c.Res = c.Res[:min(len(c.Res), 1)]
+		if len(c.Res) == 0 {
+			c.Res = []prog.Msg{{}}
+		}
+	}
+	return c
+}
+
+var specNet = pbt.Spec[Case]{
+	Prop: "C01", Name: "net",
+	Gen:   netGen,
+	Check: checkNet,
+	Rule:  "same generator as [mem] but carried by the real net/http server and transport (HTTP/1.1 and unencrypted HTTP/2) over net.Pipe inside a synctest bubble; non-trivial as in [mem] except that compression is judged from the configuration, not the wire",
+}
+
+func TestNet(t *testing.T) { pbt.Run(t, specNet) }
 
 var specMem = pbt.Spec[Case]{
 	Prop: "C01", Name: "mem",
@@ -296,4 +354,4 @@ var specMem = pbt.Spec[Case]{
 
 func TestMem(t *testing.T) { pbt.Run(t, specMem) }
 
-func TestReplay(t *testing.T) { pbt.ReplayMain(t, pbt.Replayer(specMem)) }
+func TestReplay(t *testing.T) { pbt.ReplayMain(t, pbt.Replayer(specMem), pbt.Replayer(specNet)) }
